@@ -8,6 +8,7 @@ import Driver.SharedDrv
 import Driver.AffDrv
 import Driver.CVDrv
 import Driver.DequeDrv
+import Driver.BarrierDrv
 /-! `driver <model>`: reads harness output (cases) on stdin, prints one verdict line per case. -/
 open Driver
 
@@ -22,6 +23,7 @@ def dispatch (model : String) (c : Case) : String :=
   | "aff" => AffDrv.runCase c
   | "cv" => CVDrv.runCase c
   | "deque" => DequeDrv.runCase c
+  | "barrier" => BarrierDrv.runCase c
   | _ => s!"case {c.id} reject 0 unknown-model-{model}"
 
 def main (args : List String) : IO UInt32 := do
